@@ -9,6 +9,7 @@ is executed.
 """
 import re
 import sys
+import time
 import z3
 
 from .mir import (Fn, split_top, find_matching, find_top, norm_type, parse_type, unify, type_str,
@@ -388,9 +389,11 @@ class Engine:
                 except z3.Z3Exception:
                     pass
             s.queries += 1
+            t0 = time.perf_counter()
             s.solver.push()
             s.solver.add(cond)
             r = s.solver.check()
+            s.solver_time += time.perf_counter() - t0
             if r == z3.sat:
                 if s.model is None:
                     s.model = s.solver.model()
@@ -472,11 +475,13 @@ class Engine:
     def is_feasible(s, cond):
         """one solver query: is pc ∧ cond satisfiable?  returns (bool, model or None)"""
         s.queries += 1
+        t0 = time.perf_counter()
         s.solver.push()
         s.solver.add(cond)
         r = s.solver.check()
         m = s.solver.model() if r == z3.sat else None
         s.solver.pop()
+        s.solver_time += time.perf_counter() - t0
         if r == z3.unknown:
             raise Unsupported('solver returned unknown')
         return r == z3.sat, m
@@ -485,7 +490,9 @@ class Engine:
         if s.model is not None:
             return s.model
         s.queries += 1
+        t0 = time.perf_counter()
         r = s.solver.check()
+        s.solver_time += time.perf_counter() - t0
         if r != z3.sat:
             raise Unsupported('path condition not satisfiable at leaf: ' + str(r))
         s.model = s.solver.model()
